@@ -15,7 +15,7 @@ CHECKS = {
          "DESIGN.md section 4 C01"),
  "C02": ("fault_enumeration", "exhaustive fault injection through SQLite hooks (progress_handler / authorizer / commit_hook) at every VM step, statement compilation and commit boundary of each write operation; exhaustive two-connection interleavings (complete writer at every VM step / statement boundary of snapshot reads, reader snapshot at every p-th writer step) in rollback-journal and WAL mode",
          "For each (write operation, pre-state) every SQLite VM step is interrupted, every statement compilation is made to fail and every commit is vetoed once; after each fault the full database dump must equal the pre-state (or the complete post-state), and repeating the operation must reach the uninterrupted post-state. On a file-backed database a second connection observes the writer inside one read transaction, and the complete writer runs at every interruption point of get_wallet_summary and the migration oracles: every observation / answer must be the pre-state's or the post-state's.",
-         "Trusted: SQLite atomic commit and rollback; interrupts inside BEGIN/COMMIT/ROLLBACK statements are not injected (SQLite artefact, see DESIGN.md); quick tier covers a subset of operations under a wall cap (reported).",
+         "Trusted: SQLite atomic commit and rollback; interrupts inside BEGIN/COMMIT/ROLLBACK statements are not injected (SQLite artefact, see DESIGN.md); quick tier: commit-boundary faults for every operation, VM-step and statement faults for a listed subset, under a wall cap (reported).",
          "DESIGN.md section 4 C02"),
  "C03": ("exploration", "exhaustive shape-lattice and distance-1 byte/field mutation enumeration on the real codec, independent reference writer/parser",
          "Every transaction of a (version, branch) x bundle-count x scalar-boundary lattice and every block header of a boundary lattice is written, read back and compared field-wise with an independent codec; every truncation, single-byte rewrite and count/amount/flag/branch field mutation of the lattice encodings and public vectors is parsed: no panic, no over-read, canonicity, accepted => round trip.",
@@ -30,7 +30,7 @@ CHECKS = {
          "Schedules are exhaustive at task granularity (tasks share no memory; flume internals are not interleaved).",
          "DESIGN.md section 4 C05"),
  "C06": ("model_checking", "explicit-state BFS over the real SQLite wallet with tree oracles evaluated in every state",
-         "In every state of the C01-style state graph (plus subtree-root insertion and the caching Merkle-path computation of a spend; universe with an idle-pool stretch and a fork inside a shard) every retained checkpoint of every pool is compared with the chain frontier root recorded at generation time, every wallet note's Merkle path is recomputed from the leaf, every scan must checkpoint all pools at the same heights (compared from the pruning floor up) and every scanned anchor-retention boundary must hold a checkpoint in every pool (also after more than 100 later checkpoints).",
+         "In every state of the C01-style state graph (plus subtree-root insertion and the caching Merkle-path computation of a spend; universe with an idle-pool stretch and a fork inside a shard) every retained checkpoint of every pool is compared with the chain frontier root recorded at generation time, every wallet note's Merkle path is recomputed from the leaf, every scan must checkpoint all pools at the same heights (compared from the pruning floor up; as a statement about a state it is decided only where nothing was truncated) and every scanned anchor-retention boundary must hold a checkpoint in every pool (also after more than 100 later checkpoints).",
          "Trusted: incrementalmerkletree frontier arithmetic and the pools' Merkle hashes; computability is demanded only when all blocks from the birthday are scanned; in the quick tier roots / paths are evaluated at a stated subset of checkpoints when a state retains more than twelve.",
          "DESIGN.md section 4 C06"),
  "C07": ("exploration", "exhaustive lattice enumeration of inputs/outputs/policies/heights on the real fee rule and change strategies, independent i128 ZIP 317 oracle",
